@@ -6,6 +6,7 @@ open Model
 type case =
   | File of int * unit_ list * int       (* version, units, reader chunk size (0 = whole) *)
   | Broken of string * string            (* description, image: truncations / corruptions of a valid image *)
+  | BigHash of int * int * int * int * int * int * int   (* fields, base value size, expiry ms, idle, freq, payload seed, reader chunk: a hash above the 16 MiB chunk limit, built by the probe itself *)
 
 let id = "C01"
 let rule = "abstract RDB files (versions 1..9; 1..3 databases in any order; every value type incl. zipmap/ziplist/intset blobs, quicklists, \
@@ -33,10 +34,14 @@ let gen st tier =
     Bytes.set b pos (Char.chr (rnd_pick st [ 0; 1; 5; 0x3f; 0x40; 0xc0; 0xc1; 0xc2; 0xfa; 0xfb; 0xfc; 0xfe; 0xff; 0x0e; 0x0f; 0x04 ]));
     [ Broken (Printf.sprintf "first %d of %d bytes" cut n, String.sub img 0 cut);
       Broken (Printf.sprintf "byte %d of %d replaced" pos n, Bytes.to_string b) ])) in
-  files @ broken
+  let bigs = List.init (if thorough then 6 else 2) (fun i ->
+    BigHash ((if i mod 2 = 0 then 21 else 40 + rnd_int st 10), (if i mod 2 = 0 then 1048000 else 900000 + rnd_int st 200000), rnd_pick st [ 0; 1700000000000 + rnd_int st 1000 ], rnd_pick st [ 0; 77 ], rnd_pick st [ 0; 9 ], rnd_int st 500, rnd_pick st [ 0; 65536; 1000003 ])) in
+  files @ broken @ bigs
 
 (* F20 witness: module-aux FLOAT is 4 binary bytes *)
 let corpus = [
+  (* F25 witness: a 20 MiB hash with expiry, idle and freq: the continuation record must carry them too *)
+  BigHash (20, 1048000, 1700000000123, 5, 7, 1, 0);
   File (9, [ UModuleAux (L6, n_of_int 5, [ MFloat (L6, bytes_of_string "\x05\x00\x00\x00") ], L6);
              UKey (SRaw (L6, bytes_of_string "k"), VStr (N0, SRaw (L6, bytes_of_string "v"))) ], 0);
   File (7, [ USelect (L6, n_of_int 3); UExpMs (n_of_int 1600000000123); UIdle (L6, n_of_int 9); UFreq (n_of_int 200);
@@ -44,11 +49,14 @@ let corpus = [
              ULua (L6, SRaw (L6, bytes_of_string "return 1"));
              UKey (SRaw (L6, bytes_of_string "z"), VZSet (L6, [ (SRaw (L6, bytes_of_string "m"), ScText (bytes_of_string "3.5")) ])) ], 1) ]
 
-let img_of = function File (v, us, _) -> Rdbgen.image v us | Broken (_, img) -> img
-let to_line c = Printf.sprintf "load %s %d" (hex_of_string (img_of c)) (match c with File (_, _, ch) -> ch | Broken _ -> 0)
+let img_of = function File (v, us, _) -> Rdbgen.image v us | Broken (_, img) -> img | BigHash _ -> ""
+let to_line c = match c with
+  | BigHash (nf, base, exp, idle, freq, seed, ch) -> Printf.sprintf "bighash %d %d %d %d %d %d %d" nf base exp idle freq seed ch
+  | _ -> Printf.sprintf "load %s %d" (hex_of_string (img_of c)) (match c with File (_, _, ch) -> ch | _ -> 0)
 let show = function
   | File (v, us, ch) -> Printf.sprintf "RDB v%d read in %d-byte pieces: %s" v ch (String.concat "; " (List.map Rdbgen.show_unit us))
   | Broken (d, img) -> Printf.sprintf "damaged image (%s), %d bytes" d (String.length img)
+  | BigHash (nf, base, exp, idle, freq, seed, ch) -> Printf.sprintf "RDB v9 read in %d-byte pieces: db 3, expiry %d ms, idle %d, freq %d, hash \"bigh\" of %d fields with values of about %d bytes (payload seed %d), then string key \"after\"" ch exp idle freq nf base seed
 
 let classify = function
   | File (_, us, _) ->
@@ -58,12 +66,62 @@ let classify = function
         | UKey (_, VStr (t, _)) -> "t" ^ string_of_int (int_of_n t) | UKey (_, VSeq (t, _, _)) -> "t" ^ string_of_int (int_of_n t)
         | UKey (_, VZSet _) -> "zset" | UKey (_, VZSet2 _) -> "zset2" | UKey (_, VHash _) -> "hash" | UKey (_, VStream _) -> "stream" | _ -> "") keys)))
   | Broken _ -> Some "damaged"
+  | BigHash _ -> Some "hash-above-chunk-limit"
 
 let fail kind sig_ model impl detail = Fail { kind; sig_; model; impl; detail }
 
 let render status es = status ^ " " ^ (if es = [] then "none" else String.concat " " (List.map Rdbgen.entry_str es))
 
+(* ---- a hash above the chunk limit: expected records computed natively (OCaml strings), by the greedy rule of Spec.take_chunk ---- *)
+let enc_len_s n =
+  if n < 64 then String.make 1 (Char.chr n)
+  else if n < 16384 then Printf.sprintf "%c%c" (Char.chr (64 + n / 256)) (Char.chr (n land 255))
+  else Printf.sprintf "\x80%c%c%c%c" (Char.chr ((n lsr 24) land 255)) (Char.chr ((n lsr 16) land 255)) (Char.chr ((n lsr 8) land 255)) (Char.chr (n land 255))
+let greedy limit hdrlen (pairs : string list) : string list list =
+  let rec go cap acc cur = function
+    | [] -> List.rev (if cur = [] then acc else List.rev cur :: acc)
+    | p :: rest -> let cap' = cap + String.length p in
+        if rest <> [] && cap' > limit then go 0 (List.rev (p :: cur) :: acc) [] rest else go cap' acc (p :: cur) rest in
+  go hdrlen [] [] pairs
+let big_pairs nf base seed = List.init nf (fun i ->
+  let f = Printf.sprintf "f%06d" i and v = payload (seed + i) (base + (i * 7919) mod 1000) in
+  enc_len_s (String.length f) ^ f ^ enc_len_s (String.length v) ^ v)
+(* the native chunking agrees with the extracted Spec.key_records on a scaled-down hash *)
+let greedy_matches_spec nf seed =
+  let small = List.init nf (fun i -> (Printf.sprintf "f%06d" i, payload (seed + i) (20 + (i * 7919) mod 100))) in
+  let rs (s : string) = SRaw ((if String.length s < 64 then L6 else L14), bytes_of_string s) in
+  let es = key_records (n_of_int 300) meta0 (rs "k") (VHash ((if nf < 64 then L6 else L14), List.map (fun (f, v) -> (rs f, rs v)) small)) in
+  let native = greedy 300 (String.length (enc_len_s nf)) (List.map (fun (f, v) -> enc_len_s (String.length f) ^ f ^ enc_len_s (String.length v) ^ v) small) in
+  List.map (fun (e : entry) -> int_of_n e.e_real_count) es = (match native with [ _ ] | [] -> [ 0 ] | l -> List.map List.length l)
+
+let judge_big (nf, base, exp, idle, freq, seed) obs =
+  let impl = let s = String.concat " " obs in if String.length s > 1200 then String.sub s 0 1200 ^ "..." else s in
+  let pairs = big_pairs nf base seed in
+  let hdr = enc_len_s nf in
+  let cs = greedy (int_of_n hash_chunk_limit) (String.length hdr) pairs in
+  let recs = match cs with
+    | [] -> [ (1, 0, "\x04" ^ hdr) ]
+    | [ c ] -> [ (1, 0, "\x04" ^ hdr ^ String.concat "" c) ]
+    | c0 :: more -> (1, List.length c0, "\x04" ^ hdr ^ String.concat "" c0) :: List.map (fun c -> (0, List.length c, "\x04" ^ String.concat "" c)) more in
+  let line need real body = Printf.sprintf "3:%s:4:%d:%d:%d:%d:%d:%d:%s:1" (hex_of_string "bigh") exp idle freq need real (String.length body + 10) (fnv64 body) in
+  let expected = List.map (fun (need, real, body) -> line need real body) recs
+                 @ [ Printf.sprintf "3:%s:0:0:0:0:1:0:13:%s:1" (hex_of_string "after") (fnv64 "\x00\x01x") ] in
+  let exp_s = "ok " ^ String.concat " " (List.map (fun l -> let f = String.split_on_char ':' l in String.concat ":" (List.filteri (fun i _ -> i <> 9) f)) expected) in
+  let got = match obs with st :: _ :: rest -> (st, rest) | _ -> ("?", []) in
+  if not (greedy_matches_spec (min nf 40) seed) then fail "diff" "chunk-spec-selfcheck" "" "" "the driver's native chunking disagrees with the extracted Spec.key_records (machinery)"
+  else if fst got <> "ok" then fail "oracle" "big-hash-rejected" exp_s impl "a well-formed file with a hash above the chunk limit is rejected"
+  else if snd got = expected then Agree
+  else begin
+    (* what differs? *)
+    let strip l = match String.split_on_char ':' l with
+      | db :: k :: t :: _ :: _ :: _ :: rest -> String.concat ":" (db :: k :: t :: rest) | _ -> l in
+    if List.length (snd got) = List.length expected && List.map strip (snd got) = List.map strip expected then
+      fail "oracle" "chunk-metadata" exp_s impl "a continuation record of a split hash does not carry the key's expiry / idle / freq"
+    else fail "oracle" "chunk-records" exp_s impl "the records of a hash above the chunk limit differ (count, pair counts, payload bytes or validity)"
+  end
+
 let judge c obs =
+  match c with BigHash (nf, base, exp, idle, freq, seed, _) -> judge_big (nf, base, exp, idle, freq, seed) obs | _ ->
   let impl = String.concat " " obs in
   let img = img_of c in
   let model = match load_all limit (bytes_of_string img) with
@@ -75,6 +133,7 @@ let judge c obs =
       if impl <> expected then
         fail "oracle" "records-differ" expected impl "the records delivered by the parser differ from the records of the file's syntax tree (or the file was rejected)"
       else if impl <> model then fail "diff" "rdb-model" model impl "" else Agree
+  | BigHash _ -> Agree
   | Broken _ ->
       (* compare the verdict and, when accepted, the records *)
       let norm s = if String.length s >= 3 && String.sub s 0 3 = "err" then "err" else s in
